@@ -172,6 +172,12 @@ def sequence_leg(ck, tier):
     for g in groups:
         sc, labels = multi.scenario([('server', rating.server_cfg(c)) for c in g], 1, tuple(range(len(g))), json_out=True)
         scs.append((sc, labels, g))
+    # the same sequences on several worker threads at once, with the interpreter switching threads as often as it can (so that
+    # unsynchronised shared state, if any, is hit): every audit's judgements are still those of its own version
+    for g in groups:
+        for rep in range(3 if tier == 'quick' else 12):
+            sc, labels = multi.scenario([('server', rating.server_cfg(c)) for c in g], 4, None, json_out=True)
+            scs.append((multi.eager(sc), labels, g))
     for (sc, labels, g), r in zip(scs, runner.run_many([x[0] for x in scs])):
         ck.evaluated()
         if r.get('harness_error') or r.get('hang'):
